@@ -9,7 +9,7 @@
 (*  apply   : mask / mapping / aligned as row identifiers (exact rows)      *)
 (* Mappings are 0-based in the records and 1-based in the specification.   *)
 (***************************************************************************)
-EXTENDS Assignment, TraceKit, FiniteSets
+EXTENDS Alignment, TraceKit, FiniteSets
 VARIABLES l, verdicts
 vars == <<l, verdicts>>
 
@@ -28,10 +28,10 @@ AssignChecks(r) ==
        IF ~IsPerm(m, K) THEN << <<"perm", FALSE>> >>
        ELSE IF r.alg = "greedy"
             THEN << <<"equal", m = Greedy(r.S)>> >>
-            ELSE << <<"max", Score(r.S, m) = MaxScore(r.S)>>,
+            ELSE << <<"max", Score(r.S, m) = MaxScoreSeq(r.S)>>,
                     <<"ge_greedy", Score(r.S, m) >= Score(r.S, Greedy(r.S))>>,
                     <<"equal", m = OptimalSeq(r.S)>>,
-                    <<"lsa", r.lsa = MaxScore(r.S)>> >>
+                    <<"lsa", r.lsa = MaxScoreSeq(r.S)>> >>
 AssignNT(r) == r.exc = "" /\ IsIntSeq(r.res, Len(r.S)) /\ Plus1(r.res) # IdPerm(Len(r.S))
 
 (* ---- assignf ---- *)
@@ -73,12 +73,82 @@ ApplyChecks(r) ==
 ApplyNT(r) == /\ r.exc = "" /\ WellShaped(r.mapping, Len(r.mask), Len(r.mask[1]))
               /\ \E k \in 1..Len(r.mask), f \in 1..Len(r.mask[1]) : r.mapping[k][f] + 1 # k
 
+(* ---- plan : DHTVPermutationAlignment.alignment_plan for one configuration ---- *)
+PlanChecks(r) ==
+  LET valid == PlanValid(r.stft, r.start, r.width)
+  IN IF ~valid THEN << <<"raises_valueerror", r.exc = "ValueError">> >>
+     ELSE IF r.exc # "" THEN << <<"raises", FALSE>> >>
+     ELSE LET p == Plan(r.stft, r.start, r.width, r.shift, r.main, r.sub)
+          IN << <<"plan", r.plan = p>>,
+                <<"covers", (r.shift <= r.width) => PlanCoversAll(r.plan, r.stft \div 2 + 1)>> >>
+PlanNT(r) == r.exc = "" /\ Len(r.plan) >= 2
+
+(* ---- exact replays of the aligners on integer masks (metric multiply / euclidean) ---- *)
+\* r.m : K x F x T integers.  Mapping equality is required when no decision of the specified
+\* procedure was tied (ties may legitimately be broken by float rounding of the centroid mean).
+ExactChecks(r) ==
+  LET K == Len(r.m) F == Len(r.m[1])
+  IN IF r.exc # "" THEN << <<"raises", FALSE>> >>
+     ELSE IF ~WellShaped(r.mapping, K, F) THEN << <<"shape", FALSE>> >>
+     ELSE LET mp == Plus1M(r.mapping) IN
+       IF ~IsPermPerBin(mp, K, F) THEN << <<"perm", FALSE>> >>
+       ELSE CASE r.kind = "dhtvx" ->
+                   LET run == DHTVRun(r.metric, r.alg, r.m, Plan(r.stft, r.start, r.width, r.shift, r.main, r.sub))
+                   IN << <<"procedure", (ExactComparable(r.metric, r.alg) /\ ~run.tie) => mp = run.map>>,
+                         <<"aligned", r.aligned = ApplyMapping(r.m, mp)>> >>
+              [] r.kind = "greedyx" ->
+                   << <<"procedure", ~GreedyPATie(r.metric, r.m) => mp = GreedyPARun(r.metric, r.m)>>,
+                      <<"aligned", r.aligned = ApplyMapping(r.m, mp)>> >>
+              [] r.kind = "oraclex" ->
+                   LET mask == [k \in 1..K |-> [f \in 1..F |-> r.m[r.field[k][f] + 1][f]]]
+                       distinct == \A f \in 1..F : \A a, b \in 1..K : a # b => r.m[a][f] # r.m[b][f]
+                       eqnorm == \A f \in 1..F : \A a, b \in 1..K : Dot(r.m[a][f], r.m[a][f]) = Dot(r.m[b][f], r.m[b][f])
+                       premise == distinct /\ (r.metric = "multiply" /\ r.alg = "greedy" => eqnorm)
+                   IN << <<"procedure", (ExactComparable(r.metric, r.alg) /\ ~OracleTie(r.metric, r.alg, mask, r.m)) => mp = OracleRun(r.metric, r.alg, mask, r.m)>>,
+                         <<"inverts", premise => ApplyMapping(mask, mp) = r.m>> >>
+\* non-trivial: mapping differs from the identity somewhere and the procedure had no tie
+\* (so the equality clause was really evaluated)
+ExactNT(r) == /\ r.exc = "" /\ WellShaped(r.mapping, Len(r.m), Len(r.m[1]))
+              /\ \E k \in 1..Len(r.m), f \in 1..Len(r.m[1]) : r.mapping[k][f] + 1 # k
+              /\ ExactComparable(r.metric, r.alg)
+              /\ CASE r.kind = "dhtvx" -> ~DHTVRun(r.metric, r.alg, r.m, Plan(r.stft, r.start, r.width, r.shift, r.main, r.sub)).tie
+                   [] r.kind = "greedyx" -> ~GreedyPATie(r.metric, r.m)
+                   [] OTHER -> TRUE
+
+(* ---- consist : blind alignment restores a frequency-consistent order (C16) ---- *)
+\* r.truth[k][f] (1-based): true class of input row k in bin f.  For DHTV the premise is evaluated
+\* here: >= 70 % of the first segment's bins share one order and every later segment overlaps
+\* the already aligned band by >= 2/3.
+ConsistChecks(r) ==
+  LET K == Len(r.truth) F == Len(r.truth[1])
+  IN IF r.exc # "" THEN << <<"raises", FALSE>> >>
+     ELSE IF ~WellShaped(r.mapping, K, F) THEN << <<"shape", FALSE>> >>
+     ELSE LET mp == Plus1M(r.mapping)
+              col(f) == [k \in 1..K |-> r.truth[k][f]]
+              premise ==
+                IF r.aligner # "dhtv" THEN TRUE
+                ELSE LET p == Plan(r.stft, r.start, r.width, r.shift, r.main, r.sub)
+                         seg == (p[1][2] + 1)..p[1][3]
+                     IN  /\ OverlapTwoThirds(p)
+                         /\ \E f0 \in seg : 10 * Cardinality({f \in seg : col(f) = col(f0)}) >= 7 * Cardinality(seg)
+          IN IF ~IsPermPerBin(mp, K, F) THEN << <<"perm", FALSE>> >>
+             ELSE << <<"consistent", premise =>
+                         \A f \in 1..F : \A k \in 1..K : r.truth[mp[k][f]][f] = r.truth[mp[k][1]][1]>>,
+                     <<"identity", r.expect_identity => \A k \in 1..K, f \in 1..F : mp[k][f] = k>> >>
+ConsistNT(r) == r.exc = "" /\ \E f \in 1..Len(r.truth[1]) : \E k \in 1..Len(r.truth) : r.truth[k][f] # r.truth[k][1]
+
 Checks(r) == CASE r.kind = "assign"  -> AssignChecks(r)
                [] r.kind = "assignf" -> AssignFChecks(r)
                [] r.kind = "apply"   -> ApplyChecks(r)
+               [] r.kind = "plan"    -> PlanChecks(r)
+               [] r.kind \in {"dhtvx", "greedyx", "oraclex"} -> ExactChecks(r)
+               [] r.kind = "consist" -> ConsistChecks(r)
 NT(r)     == CASE r.kind = "assign"  -> AssignNT(r)
                [] r.kind = "assignf" -> AssignFNT(r)
                [] r.kind = "apply"   -> ApplyNT(r)
+               [] r.kind = "plan"    -> PlanNT(r)
+               [] r.kind \in {"dhtvx", "greedyx", "oraclex"} -> ExactNT(r)
+               [] r.kind = "consist" -> ConsistNT(r)
 
 Init == l = 1 /\ verdicts = <<>>
 Next == /\ l <= Len(Trace)
